@@ -153,7 +153,7 @@ def variants(prop, sp):
             out.append(("benign %s" % os.path.basename(d), patch_overrides(sp, open(pp).read()), "silent", None))
     # behaviour-preserving rewrites of the whole package: layout (ast.unparse) and alpha-renaming of all function locals
     from .rewrite import package_overrides
-    for mode in ("reformat", "rename"):
+    for mode in ("reformat", "rename", "respell", "kwargs"):
         try:
             out.append(("whole package %s" % mode, package_overrides(sp, mode), "silent", None))
         except SyntaxError as e:
